@@ -1,7 +1,7 @@
 """C08 - Statistics equal their definitions and are additive over windows (schedule clause and plumbing only)."""
 from __future__ import annotations
 
-from . import scopes
+from . import scopes, lib_mem
 import json
 
 from . import lib_stats, lib_module, lib_py, lib_guards, lib_sweep
@@ -36,3 +36,4 @@ def run(ctx):
     lib_py.kw_forward(ctx, py, mods=("trees", "stats"), only=ps)
     lib_py.unused_params(ctx, py, mods=("trees", "stats"), only=ps)
     lib_py.ll_positional(ctx, py, P, only=ps)
+    lib_mem.c_lints(ctx, ctx.program(), scopes.lib_scope("C08"))
